@@ -590,3 +590,20 @@ func rdWfB(r io.ByteReader) bool {
 	}
 	return false
 }
+
+// ShrinkLength rewrites the outer TL header of a TLV whose value lost `shrink` trailing bytes of slack
+// (used after signing with a signature shorter than estimated): the result must again be a well-formed TLV:
+// same type, length reduced by shrink and encoded in shortest form, value bytes untouched.
+//
+//@ func ShrinkLength
+//@   requires len(buf) >= 2 && specTLSize(buf, 0) < len(buf) && specTLSize(buf, 0) == specTLLen(specTLVal(buf, 0))
+//@   requires specTLSize(buf, 0)+specTLSize(buf, specTLSize(buf, 0)) <= len(buf)
+//@   requires specTLSize(buf, specTLSize(buf, 0)) == specTLLen(specTLVal(buf, specTLSize(buf, 0)))
+//@   requires 0 <= shrink && uint64(shrink) <= specTLVal(buf, specTLSize(buf, 0))
+//@   modifies buf[*]
+//@   ensures specTLVal(result, 0) == old(specTLVal(buf, 0)) && specTLSize(result, 0) == old(specTLSize(buf, 0))
+//@   ensures specTLVal(result, specTLSize(result, 0)) == old(specTLVal(buf, specTLSize(buf, 0)))-uint64(shrink)
+//@   ensures specTLSize(result, specTLSize(result, 0)) == specTLLen(old(specTLVal(buf, specTLSize(buf, 0)))-uint64(shrink))
+//@   ensures sliceArr(result) == sliceArr(buf) && sliceOff(result)+len(result) == sliceOff(buf)+len(buf)
+//@   ensures len(result) == len(buf)-(old(specTLSize(buf, specTLSize(buf, 0)))-specTLSize(result, specTLSize(result, 0)))
+//@   ensures unchangedExcept(buf, 0, old(specTLSize(buf, 0)+specTLSize(buf, specTLSize(buf, 0))))
